@@ -16,6 +16,8 @@ import (
 	"time"
 )
 
+var queryTimeout int
+
 type KnownFinding struct {
 	Property string `json:"property"`
 	Harness  string `json:"harness,omitempty"`
@@ -60,6 +62,7 @@ func main() {
 	solverLog := fs.String("smtlog", "", "write worker-0 SMT-LIB traffic to file")
 	noReplay := fs.Bool("noreplay", false, "skip native replay")
 	replayPath := fs.String("replay", "", "replay a recorded violation file against the real code")
+	qt := fs.Int("qt", 0, "per-query solver timeout in ms (default 60000 quick / 300000 thorough)")
 	fs.Parse(os.Args[3:])
 	if t := os.Getenv("VERIF_TIER"); t != "" {
 		*tier = t
@@ -74,6 +77,7 @@ func main() {
 		fmt.Fprintln(os.Stderr, "unknown command", cmd)
 		os.Exit(2)
 	}
+	queryTimeout = *qt
 	os.Exit(runCheck(id, *tier, *only, seed, *workers, *verbose, *noMerge, *solverLog, *noReplay, *replayPath))
 }
 
@@ -120,6 +124,12 @@ func runCheck(id, tier, only string, seed, workers int, verbose, noMerge bool, s
 		writeEvidence(cfg, tier, seed, nil, nil, []string{"load failed: " + err.Error()}, time.Since(start), 0, 0)
 		return 3
 	}
+	if tier == "thorough" {
+		eng.timeoutMs = 300000
+	}
+	if queryTimeout > 0 {
+		eng.timeoutMs = queryTimeout
+	}
 	eng.noMerge = noMerge
 	eng.verbose = verbose
 	eng.solverLog = solverLog
@@ -161,8 +171,8 @@ func runCheck(id, tier, only string, seed, workers int, verbose, noMerge bool, s
 		r := eng.explore(h, workers)
 		results = append(results, r)
 		if verbose || true {
-			fmt.Printf("harness %-28s paths=%d ends=%v obligations=%d discharged=%d queries=%d solver=%.1fs wall=%.1fs merges=%d\n",
-				h.Name, r.Paths, r.EndKinds, r.Stats.Obligations, r.Stats.Discharged, r.Solver.Queries, r.Solver.Time.Seconds(), r.Wall.Seconds(), r.Stats.Merges)
+			fmt.Printf("harness %-28s paths=%d ends=%v obligations=%d discharged=%d queries=%d(fallback %d) solver=%.1fs wall=%.1fs merges=%d\n",
+				h.Name, r.Paths, r.EndKinds, r.Stats.Obligations, r.Stats.Discharged, r.Solver.Queries, r.Solver.Fallbacks, r.Solver.Time.Seconds(), r.Wall.Seconds(), r.Stats.Merges)
 		}
 		for _, s := range r.Inconcl {
 			inconcl = append(inconcl, h.Name+": "+s)
@@ -454,7 +464,7 @@ func writeEvidence(cfg *CheckCfg, tier string, seed int, eng *Engine, results []
 		hv := map[string]any{"name": r.Cfg.Name, "entry": r.Cfg.Func, "doc": r.Cfg.Doc, "paths": r.Paths, "path_ends": r.EndKinds,
 			"unwind": r.Cfg.Unwind, "params": r.Cfg.Params, "obligations": r.Stats.Obligations, "discharged": r.Stats.Discharged,
 			"solver_queries": r.Solver.Queries, "solver_sat": r.Solver.Sat, "solver_unsat": r.Solver.Unsat, "solver_unknown": r.Solver.Unknown,
-			"solver_time_s": r.Solver.Time.Seconds(), "max_query_s": r.Solver.MaxQuery.Seconds(), "ite_merges": r.Stats.Merges,
+			"solver_time_s": r.Solver.Time.Seconds(), "oneshot_fallbacks": r.Solver.Fallbacks, "max_query_s": r.Solver.MaxQuery.Seconds(), "ite_merges": r.Stats.Merges,
 			"reached": reached, "wall_s": r.Wall.Seconds()}
 		var vs []any
 		for _, v := range r.Violations {
@@ -482,7 +492,7 @@ func writeEvidence(cfg *CheckCfg, tier string, seed int, eng *Engine, results []
 	ev.Coverage["discharged"] = dis
 	ev.Coverage["solver_queries"] = queries
 	ev.Coverage["solver_time_s"] = solverT.Seconds()
-	ev.Coverage["solver"] = "z3 4.8.12 (-in, incremental push/pop)"
+	ev.Coverage["solver"] = "z3 4.8.12 (-in, incremental push/pop, 400 ms budget) with one-shot non-incremental fallback (z3-new 5.1.0, then z3 4.8.12) under the full per-query timeout"
 	ev.Coverage["functions_encoded"] = sortedSet(funcs)
 	ev.Coverage["models_substituted"] = sortedSet(stubs)
 	ev.Coverage["harnesses"] = harnesses
